@@ -109,6 +109,10 @@ class K:
         if tg == "cas":
             return ("cas", self.place(x[2], depth + 1))
         if tg == "casfail":
+            # on one thread the value a failed CAS reports is the value the word holds
+            c = x[1] if len(x) > 1 else None
+            if tag(c) == "cas":
+                return ("mem", self.place(c[2], depth + 1))
             return ("casfail",)
         if tg == "rmw":
             return ("rmw", x[1], self.place(x[3], depth + 1), self.t(x[4], depth + 1))
@@ -335,7 +339,8 @@ def summarise(ctx, b, flavour):
                 continue
             fs2.append(f)
         # a branch on a locally joined flag (`matches!`, `a && b`) is represented by the guards of the edges that set it (sym: _flag_phi_guards)
-        gs = set([repr(k.t(f)) for f in fs2 if not sync_only_fact(f) and not found_ourselves(f) and not (f[0] == "bool" and tag(f[1]) == "phi")] + [repr(x) for x in extra])
+        # (the value reported by a failed CAS is projected to the word's value before the sync-only filter looks at the fact)
+        gs = set([repr(kt) for f, kt in ((f, k.t(f)) for f in fs2) if not sync_only_fact(kt) and not found_ourselves(f) and not (f[0] == "bool" and tag(f[1]) == "phi")] + [repr(x) for x in extra])
         return gs, infeasible
 
     back = set(b.back_edges())
